@@ -4,6 +4,7 @@
 -/
 import Sq.Proto
 import Sq.Machine
+import Sq.Denote
 import Sq.Session
 namespace Sq
 namespace Proto
@@ -291,6 +292,9 @@ def report (c : Cfg) (namesAddr vmi : Nat) : String :=
 
 def maxSteps : Nat := 20000000
 
+/-- recursion bound handed to the compositional semantics in `(dencheck)` runs -/
+def denFuel : Nat := 3000
+
 /-- evaluate with the given tree (`ownTree`, from the model's own parser) or, when none is given, with the tree the
     implementation sent along -/
 def evalWith (es : List SExp) (rdFuel : Nat) (ownTree : Option Op) : String :=
@@ -316,9 +320,23 @@ def evalWith (es : List SExp) (rdFuel : Nat) (ownTree : Option Op) : String :=
                  | _ => none)
                let c0 := initCfg w [] namesAddr budget ast astNames
                let c := runUntil maxSteps c0
-               match c.ctl with
-               | .failed (.unmodelled why) => "U " ++ why
-               | _ => report c namesAddr 0)
+               let render (c : Cfg) : String := match c.ctl with
+                 | .failed (.unmodelled why) => "U " ++ why
+                 | _ => report c namesAddr 0
+               let line := render c
+               -- `(dencheck)`: also evaluate with the compositional semantics of Sq/Denote.lean and say whether it
+               -- gives the same report (`same`), has no verdict within the fuel (`nofuel`) or differs (`DIFF` —
+               -- impossible by SqLemmas/DenoteSound.lean; the harness counts the three)
+               match field? "dencheck" es, astNames with
+               | some _, [] =>
+                 let w0 : World := { w with vms := w.vms ++ [{ scopes := [namesAddr], ops := 0 }] }
+                 let tag := match Den.evalOp [budget] denFuel ast 0 w0 with
+                   | none => "nofuel"
+                   | some (o, w') =>
+                     let ctl : Ctl := match o with | .ret v => .done v | .raise e => .failed e
+                     if render { ctl := ctl, k := [], w := w', budgets := [budget] } == line then "same" else "DIFF"
+                 line ++ " ;; den=" ++ tag
+               | _, _ => line)
         | _ => "bad-names")
      | _, _, _ => "bad-fields")
   | _, _, _, _ => "bad-eval"
